@@ -313,6 +313,7 @@ def vocab(area, consts):
             "Effects::new": const_fn("e_new", EFF, "Effects::new"),
             acolor_name + "::Ansi": shape("Ansi", None, [("in", ANSI)], acol),
             acolor_name + "::Rgb": shape("Rgb", None, [("in", RGB)], acol),
+            acolor_name + "::Ansi256": shape("Ansi256", None, [("in", A256)], acol),
         },
         "methods": {
             ("Style", "get_fg_color"): m_pure("(ry_fg %s)", ("opt", acol), "Style::get_fg_color"),
